@@ -27,6 +27,7 @@ class G:
         self.nin = draw(st.integers(1, 3))
         self.nbool = draw(st.integers(0, 2))
         self.loopvars = []
+        self.lists = draw(st.booleans())      # tracked list variable _.l (flat, 3) and _.m (nested, 2x2)
         self.counter = 0
         self.budget = draw(st.integers(3, 12))
 
@@ -36,6 +37,10 @@ class G:
         if k <= 1:
             return ["v", d(st.integers(0, self.nvars - 1))]
         if k == 2:
+            if self.lists and d(st.booleans()):
+                if d(st.booleans()):
+                    return ["l", d(st.integers(0, 2))]
+                return ["m", d(st.integers(0, 1)), d(st.integers(0, 1))]
             return ["c", d(st.integers(-3, 5))]
         if k == 3:
             return ["in", d(st.integers(0, self.nin - 1))]
@@ -78,6 +83,10 @@ class G:
         self.budget -= 1
         k = d(st.integers(0, 9)) if depth < 3 else 0
         if k <= 3:
+            if self.lists and d(st.integers(0, 2)) == 0:
+                if d(st.booleans()):
+                    return ["setl", d(st.integers(0, 2)), self.expr()]
+                return ["setm", d(st.integers(0, 1)), d(st.integers(0, 1)), self.expr()]
             return ["set", d(st.integers(0, self.nvars - 1)), self.expr()]
         if k <= 6:
             arms = [[self.cond(), self.block(depth + 1)]]
@@ -134,8 +143,13 @@ def draw_case(draw):
                 if s[2]:
                     fill(s[2])
     fill(body)
+    lists = None
+    if g.lists:
+        lists = {"l": [draw(st.integers(-3, 5)) for _ in range(3)], "lsec": [draw(st.booleans()) for _ in range(3)],
+                 "m": [[draw(st.integers(-3, 5)) for _ in range(2)] for _ in range(2)],
+                 "msec": [[draw(st.booleans()) for _ in range(2)] for _ in range(2)]}
     return {"nvars": g.nvars, "nin": g.nin, "nbool": g.nbool, "init": init, "init_secret": init_secret,
-            "body": body, "a": va, "b": vb, "bitlength": 32}
+            "body": body, "a": va, "b": vb, "bitlength": 32, "lists": lists}
 
 
 # ---- rendering ---------------------------------------------------------------
@@ -150,6 +164,10 @@ def r_expr(e, obl):
         return "a%d" % e[1]
     if t == "i":
         return e[1]
+    if t == "l":
+        return "_.l[%d]" % e[1]
+    if t == "m":
+        return "_.m[%d][%d]" % (e[1], e[2])
     if t == "bin":
         return "(%s %s %s)" % (r_expr(e[2], obl), e[1], r_expr(e[3], obl))
     if t == "ite":
@@ -200,6 +218,10 @@ def render(case, obl):
         t = s[0]
         if t == "set":
             emit(ind, "_.x%d = %s" % (s[1], r_expr(s[2], obl)))
+        elif t == "setl":
+            emit(ind, "_.l[%d] = %s" % (s[1], r_expr(s[2], obl)))
+        elif t == "setm":
+            emit(ind, "_.m[%d][%d] = %s" % (s[1], s[2], r_expr(s[3], obl)))
         elif t == "if":
             arms, els = s[1], s[2]
             if obl:
@@ -271,6 +293,9 @@ def run_native(case, vec):
     ns = {"_": types.SimpleNamespace(), "T": T, "AND": lambda a, b: a and b}
     for i, v in enumerate(case["init"]):
         setattr(ns["_"], "x%d" % i, v)
+    if case.get("lists"):
+        ns["_"].l = list(case["lists"]["l"])
+        ns["_"].m = [list(r) for r in case["lists"]["m"]]
     for i, v in enumerate(vec["ins"]):
         ns["a%d" % i] = v
     for i, v in enumerate(vec["bools"]):
@@ -278,7 +303,10 @@ def run_native(case, vec):
     for k, v in vec["stops"].items():
         ns["s" + k] = v
     exec(compile(render(case, False), "<c09-native>", "exec"), ns)
-    return [getattr(ns["_"], "x%d" % i) for i in range(case["nvars"])], outcomes
+    out = [getattr(ns["_"], "x%d" % i) for i in range(case["nvars"])]
+    if case.get("lists"):
+        out += list(ns["_"].l) + [x for r in ns["_"].m for x in r]
+    return out, outcomes
 
 
 def run_oblivious(case, vec, p):
@@ -292,6 +320,10 @@ def run_oblivious(case, vec, p):
         ns[nm] = getattr(br, nm)
     for i, v in enumerate(case["init"]):
         setattr(ns["_"], "x%d" % i, rt.PrivVal(v) if case["init_secret"][i] else v)
+    if case.get("lists"):
+        L = case["lists"]
+        ns["_"].l = [rt.PrivVal(v) if s_ else v for v, s_ in zip(L["l"], L["lsec"])]
+        ns["_"].m = [[rt.PrivVal(v) if s_ else v for v, s_ in zip(r, rs)] for r, rs in zip(L["m"], L["msec"])]
     for i, v in enumerate(vec["ins"]):
         ns["a%d" % i] = rt.PrivVal(v)
     for i, v in enumerate(vec["bools"]):
@@ -309,11 +341,13 @@ def run_oblivious(case, vec, p):
     ctx = ns["_"]
     finals = []
     leaves = []
-    for i in range(case["nvars"]):
-        x = ctx.vals["x%d" % i]
+    objs = [ctx.vals["x%d" % i] for i in range(case["nvars"])]
+    if case.get("lists"):
+        objs += list(ctx.vals["l"]) + [x for r in ctx.vals["m"] for x in r]
+    for x in objs:
         t = ir.classify(e, x)
         finals.append(ir.pyval(x, t) if t in "IBF" else x)
-        for path, leaf in ir.secret_leaves(e, x, "x%d" % i):
+        for path, leaf in ir.secret_leaves(e, x, "x"):
             leaves.append(leaf)
     state = None
     if len(ctx.stack) != 0:
@@ -390,6 +424,8 @@ def kinds_in(case):
                     out.add("breakif")
                 walk(s[4], depth + 1)
     walk(case["body"], 0)
+    if case.get("lists"):
+        out.add("list-variables")
     src = render(case, True)
     if "lambda: (" in src or "(lambda:" in src:
         out.add("lazy-ite")
